@@ -8,6 +8,7 @@ import (
 	"go/ast"
 	"go/parser"
 	"go/token"
+	"go/types"
 	"os"
 	"path/filepath"
 	"sort"
@@ -56,7 +57,7 @@ func stateSpace(root string) string {
 					e := st{name: pkg + "." + s.Name.Name}
 					for _, fl := range stt.Fields.List {
 						if len(fl.Names) == 0 {
-							e.fields = append(e.fields, "embedded "+exprString(fl.Type))
+							e.fields = append(e.fields, "embedded "+types.ExprString(fl.Type))
 						}
 						for _, n := range fl.Names {
 							e.fields = append(e.fields, n.Name)
